@@ -112,8 +112,9 @@ class C19:
             k = rng.choice([0, 1, 3, 11, 12, 20])
             peers = rng.sample(range(1, 200), k)
             interested = rng.choice([0, 0, 2, 10, 11, 12])
-            kill = " kill" if rng.random() < 0.5 else ""
-            c = Case("trk %d %s %d%s" % (n, ",".join(map(str, peers)) or "-", interested, kill), "faults" + ("+disconnect" if kill else ""),
+            r = rng.random()
+            kill = " kill" if r < 0.4 else " late" if r < 0.7 and n <= 62 else ""
+            c = Case("trk %d %s %d%s" % (n, ",".join(map(str, peers)) or "-", interested, kill), "faults" + {" kill": "+disconnect", " late": "+manager-busy", "": ""}[kill],
                      {"fails": n, "peers": k, "interested": interested})
             out.append(c)
         return out
